@@ -472,6 +472,11 @@ M('C12', 'dk-pass-stripped', FL, "            hpass = passphrase.encode('utf-8')
 M('C12', 'dk-contexts-forked-after-data', FL, "        h = []\n        for i in range(0, ctx):\n            _h = self.halg.hasher\n            _h.update(b'\\x00' * i)\n            _h.update(hashdata)\n            h.append(_h)\n",
   "        base = self.halg.hasher\n        base.update(hashdata)\n        h = []\n        for i in range(0, ctx):\n            _h = base.copy()\n            _h.update(b'\\x00' * i)\n            h.append(_h)\n", 'C12.1')
 M('C12', 'count-setter-stores-decoded', FL, "            raise ValueError(\"count must be between 0 and 256\")\n        self._count = val\n", "            raise ValueError(\"count must be between 0 and 256\")\n        self._count = (16 + (val & 15)) << ((val >> 4) + 6)\n", 'C12.3')
+M('C12', 'count-getter-or-default', FL, "        return (16 + (self._count & 15)) << ((self._count >> 4) + 6)", "        c = self._count or self.halg.tuned_count\n        return (16 + (c & 15)) << ((c >> 4) + 6)", 'C12.3')
+M('C12', 'count-getter-255-special', FL, "        return (16 + (self._count & 15)) << ((self._count >> 4) + 6)", "        if self._count == 255:\n            return self.encalg.block_size * 1024\n        return (16 + (self._count & 15)) << ((self._count >> 4) + 6)", 'C12.3')
+M('C12', 'count-getter-255-capped', FL, "        return (16 + (self._count & 15)) << ((self._count >> 4) + 6)", "        if self._count == 255:\n            return 0x2000000\n        return (16 + (self._count & 15)) << ((self._count >> 4) + 6)", 'C12.3')
+M('C12', 'count-setter-zero-default', FL, "            raise ValueError(\"count must be between 0 and 256\")\n        self._count = val\n", "            raise ValueError(\"count must be between 0 and 256\")\n        self._count = val or self.halg.tuned_count\n", 'C12.3')
+T('C12', 'twin-count-getter-or-zero', FL, "        return (16 + (self._count & 15)) << ((self._count >> 4) + 6)", "        c = self._count or 0\n        return (16 + (c & 15)) << ((c >> 4) + 6)")
 M('C12', 'count-getter-clamped', FL, "        return (16 + (self._count & 15)) << ((self._count >> 4) + 6)", "        return min((16 + (self._count & 15)) << ((self._count >> 4) + 6), 0x2000000)", 'C12.3')
 M('C12', 'writer-iv-only-for-iterated', FL, "            if self.iv is not None:\n                _bytes += self.iv\n", "            if self.iv is not None and self.specifier == String2KeyType.Iterated:\n                _bytes += self.iv\n", 'C12.4')
 M('C12', 'reader-salt-for-simple', FL, "            if self.specifier >= String2KeyType.Salted:\n                self.salt = packet[:8]\n                del packet[:8]", "            if self.specifier >= String2KeyType.Simple:\n                self.salt = packet[:8]\n                del packet[:8]", 'C12.4')
